@@ -1003,12 +1003,79 @@ package astits
 //@ func newPacketPool
 //@   ensures [C20,C07] new: result != nil && fresh(result) && result.programMap == programMap && result.b != nil && fresh(result.b) && len(result.b) == 0
 
-// io.Seeker (assumed, per its documentation): seeking to offset 0 from the start reports 0.
+// Readers (assumed, per the io documentation). rdPos(r) counts the bytes consumed from r, rdFail(r) the calls on r
+// that returned an error; both are ghost state indexed by the reader object, so a reader that is also an
+// io.Seeker shares them. Read may return fewer bytes than asked for without an error; ReadFull may not.
+//@ extern (io.Reader).Read
+//@   modifies rdPos(recv), rdFail(recv), elems(p)
+//@   ensures doc: 0 <= n && n <= len(p) && rdPos(recv) == old(rdPos(recv)) + n
+//@   ensures fail: (err != nil) == (rdFail(recv) != old(rdFail(recv))) && rdFail(recv) >= old(rdFail(recv))
+//@ extern io.ReadFull
+//@   modifies rdPos(r), rdFail(r), rdEnded(r), elems(buf)
+//@   ensures doc: 0 <= n && n <= len(buf) && rdPos(r) == old(rdPos(r)) + n && (err == nil ==> n == len(buf))
+//@   ensures eof: (err == io_EOF || err == io_ErrUnexpectedEOF ==> rdEnded(r) != 0) && (err == nil ==> rdEnded(r) == old(rdEnded(r)))
+//@   ensures fail: (err != nil) == (rdFail(r) != old(rdFail(r))) && rdFail(r) >= old(rdFail(r))
+//@ extern io.ReadAtLeast
+//@   modifies rdPos(r), rdFail(r), elems(buf)
+//@   ensures doc: 0 <= n && n <= len(buf) && rdPos(r) == old(rdPos(r)) + n && (err == nil ==> n >= min)
+//@   ensures fail: (err != nil) == (rdFail(r) != old(rdFail(r))) && rdFail(r) >= old(rdFail(r))
+// bufio.Reader.Peek consumes nothing.
+//@ extern (*bufio.Reader).Peek
+//@   ensures doc: 0 <= len(result0) && len(result0) <= n && (result1 == nil ==> len(result0) == n) && allocated(result0)
+// io.Seeker: seeking to offset 0 from the start reports 0 and puts the reader back at its first byte.
 //@ extern (io.Seeker).Seek
-//@   ensures doc: result1 == nil && offset == 0 && whence == 0 ==> result0 == 0
+//@   modifies rdPos(recv), rdFail(recv)
+//@   ensures doc: result1 == nil && offset == 0 && whence == 0 ==> result0 == 0 && rdPos(recv) == 0
+//@   ensures fail: (result1 != nil) == (rdFail(recv) != old(rdFail(recv))) && rdFail(recv) >= old(rdFail(recv))
 
 //@ func rewind
+//@   modifies rdPos(r), rdFail(r)
 //@   ensures [C20,C08] notseekable: err == nil ==> n == 0 || n == -1
+//@   ensures [C20,C08] seeked: err == nil && n == 0 ==> rdPos(r) == 0
+//@   ensures [C08] untouched: n == -1 && err == nil ==> rdPos(r) == old(rdPos(r)) && rdFail(r) == old(rdFail(r))
+//@   ensures [C18] surfaced: (err != nil) == (rdFail(r) != old(rdFail(r)))
+//@   ensures [C18] mono: rdFail(r) >= old(rdFail(r))
+
+// peek fills b with the first len(b) bytes of the stream whatever the reader's fragmentation: either nothing is
+// consumed (bufio) or exactly len(b) bytes are - unless the reader failed or the stream ended first.
+//@ func peek
+//@   requires 0 <= len(b) && len(b) <= cap(b) && len(b) < 0x10000 && allocated(b)
+//@   modifies rdPos(r), rdFail(r), rdEnded(r), elems(b)
+//@   ensures [C08] bufio: !shouldRewind ==> rdPos(r) == old(rdPos(r))
+//@   ensures [C08] whole: shouldRewind && err == nil ==> rdPos(r) == old(rdPos(r)) + len(b) || rdEnded(r) != 0
+//@   ensures [C18] surfaced: rdFail(r) != old(rdFail(r)) ==> err != nil
+//@   ensures [C18] mono: rdFail(r) >= old(rdFail(r))
+
+// autoDetectPacketSize: on success the reader is left on a packet boundary (at its first byte, or two whole
+// packets further for a reader that can neither peek nor seek), whatever the size of the reads it serves.
+//@ func autoDetectPacketSize
+//@   requires rdPos(r) == 0
+//@   modifies rdPos(r), rdFail(r), rdEnded(r)
+//@   loop 0 invariant [C08,C18,C03] scan: rangeindex == iter - 1 && iter <= 193 && rdFail(r) == old(rdFail(r)) && (shouldRewind ==> rdPos(r) == 193 || rdEnded(r) != 0) && (!shouldRewind ==> rdPos(r) == 0)
+//@   ensures [C08] size: err == nil ==> 188 <= packetSize && packetSize <= 192
+//@   ensures [C08] boundary: err == nil ==> rdPos(r) == 0 || rdPos(r) == 2 * packetSize || rdEnded(r) != 0
+//@   ensures [C18] surfaced: rdFail(r) != old(rdFail(r)) ==> err != nil && err != ErrPacketMustStartWithASyncByte
+//@   ensures [C18] mono: rdFail(r) >= old(rdFail(r))
+
+//@ func newPacketBuffer
+//@   requires rdPos(r) == 0
+//@   modifies rdPos(r), rdFail(r), rdEnded(r)
+//@   ensures [C08] size: err == nil ==> pb != nil && fresh(pb) && pb.r == r && pb.s == s && pb.packetSize == ite(packetSize == 0, pb.packetSize, packetSize) && (packetSize == 0 ==> 188 <= pb.packetSize && pb.packetSize <= 192) && len(pb.packetReadBuffer) == 0 && pb.packetReadBuffer == nil
+//@   ensures [C08] boundary: err == nil ==> rdPos(r) == 0 || (packetSize == 0 && (rdPos(r) == 2 * pb.packetSize || rdEnded(r) != 0))
+//@   ensures [C18] surfaced: rdFail(r) != old(rdFail(r)) ==> err != nil
+//@   ensures [C18] mono: rdFail(r) >= old(rdFail(r))
+
+// next: the stream is consumed in whole packets (every completed iteration reads exactly packetSize bytes into a
+// buffer of exactly that size), a reader failure is reported, and the skipper is consulted through parsePacket.
+//@ func (*packetBuffer).next
+//@   opt noframe
+//@   opt noloopframe
+//@   requires pb != nil && 188 <= pb.packetSize && pb.packetSize < 0x10000 && 0 <= len(pb.packetReadBuffer) && len(pb.packetReadBuffer) <= cap(pb.packetReadBuffer) && allocated(pb.packetReadBuffer)
+//@   loop 0 invariant [C08,C18,C03,C19] buf: pb != nil && len(pb.packetReadBuffer) == pb.packetSize && pb.packetSize == old(pb.packetSize) && 188 <= pb.packetSize && pb.packetSize < 0x10000 && len(pb.packetReadBuffer) <= cap(pb.packetReadBuffer) && allocated(pb.packetReadBuffer) && pb.r == old(pb.r) && pb.s == old(pb.s) && rdFail(pb.r) == old(rdFail(pb.r))
+//@   loop 0 assert [C08] whole: rdPos(pb.r) == pre(rdPos(pb.r)) + pb.packetSize
+//@   at call io.ReadFull#0 assert [C08] whole: len($buf) == pb.packetSize
+//@   ensures [C18] surfaced: rdFail(pb.r) != old(rdFail(pb.r)) ==> err != nil
+//@   ensures [C08,C19] packet: err == nil ==> p != nil
 
 //@ func (*Demuxer).Rewind
 //@   requires dmx != nil
